@@ -17,11 +17,20 @@ def forms(ver):
            ('namespace', 'urn:a'), ('namespace', 'urn:a urn:b'), ('namespace', '##local urn:a'), ('namespace', '##targetNamespace urn:b'), ('namespace', '##local ##targetNamespace')]
     if ver == '1.1':
         out += [('notNamespace', '##local'), ('notNamespace', '##targetNamespace'), ('notNamespace', 'urn:a'), ('notNamespace', '##local urn:a'), ('notNamespace', '##targetNamespace urn:a urn:b')]
+        # names excluded one by one (notQName): the set reading is over names, not namespaces
+        out += [('namespace', 'urn:b', 'b:x'), ('namespace', '##any', 'a:x t:y'), ('notNamespace', 'urn:a', 'b:x t:x'), ('namespace', '##other', 'a:y')]
     return out
 
 
-def denote(form, ns):
-    kind, val = form
+PFX = {'a': 'urn:a', 'b': 'urn:b', 't': T}
+LOCALS = ['x', 'y']
+NAMES = [(ns, ln) for ns in UNIVERSE for ln in LOCALS]
+
+
+def denote(form, name):
+    ns, ln = name if isinstance(name, tuple) else (name, None)
+    kind, val = form[:2]
+    if len(form) > 2 and (ns, ln) in {(PFX[q.split(':')[0]], q.split(':')[1]) for q in form[2].split()}: return False
     toks = val.split()
     m = lambda t: '' if t == '##local' else T if t == '##targetNamespace' else t
     if kind == 'notNamespace': return ns not in {m(t) for t in toks}
@@ -30,24 +39,25 @@ def denote(form, ns):
     return ns in {m(t) for t in toks}
 
 
-def attr(form): return f'<xs:anyAttribute {form[0]}="{form[1]}" processContents="skip"/>'
-def anyel(form): return f'<xs:any {form[0]}="{form[1]}" processContents="skip"/>'
+def nq(form): return f' notQName="{form[2]}"' if len(form) > 2 else ''
+def attr(form): return f'<xs:anyAttribute {form[0]}="{form[1]}"{nq(form)} processContents="skip"/>'
+def anyel(form): return f'<xs:any {form[0]}="{form[1]}"{nq(form)} processContents="skip"/>'
 
 
 def admitted(s, elem):
     out = set()
-    for ns in UNIVERSE:
-        a = f'xmlns:n="{ns}" n:x="1"' if ns else 'x="1"'
-        if s.is_valid(f'<t:{elem} xmlns:t="{T}" {a}/>'): out.add(ns)
+    for ns, ln in NAMES:
+        a = f'xmlns:n="{ns}" n:{ln}="1"' if ns else f'{ln}="1"'
+        if s.is_valid(f'<t:{elem} xmlns:t="{T}" {a}/>'): out.add((ns, ln))
     return out
 
 
 def eval_pair(args):
     ver, fa, fb = args
     import xmlschema
-    A = {ns for ns in UNIVERSE if denote(fa, ns)}; B = {ns for ns in UNIVERSE if denote(fb, ns)}
+    A = {n for n in NAMES if denote(fa, n)}; B = {n for n in NAMES if denote(fb, n)}
     bad = []
-    head = f'<xs:schema {XS} targetNamespace="{T}" xmlns:t="{T}">'
+    head = f'<xs:schema {XS} targetNamespace="{T}" xmlns:t="{T}" xmlns:a="urn:a" xmlns:b="urn:b">'
     # extension -> union
     try:
         s = _cls(ver)(head + f'<xs:complexType name="Base">{attr(fa)}</xs:complexType><xs:complexType name="Der"><xs:complexContent><xs:extension base="t:Base">{attr(fb)}</xs:extension></xs:complexContent></xs:complexType>'
@@ -71,7 +81,8 @@ def eval_pair(args):
         if not B <= A: bad.append(('restriction-accepted-but-not-included', sorted(B - A), 'schema error'))
     except xmlschema.XMLSchemaException:
         pass
-    # overlap of two element wildcards in a choice
+    # overlap of two element wildcards in a choice (namespace constraints only: the forms with notQName are left to the three clauses above)
+    if len(fa) > 2 or len(fb) > 2: return dict(ver=ver, a=fa, b=fb, bad=bad)
     try:
         _cls(ver)(head + f'<xs:element name="o"><xs:complexType><xs:choice>{anyel(fa)}{anyel(fb)}</xs:choice></xs:complexType></xs:element></xs:schema>'); built = True
     except xmlschema.XMLSchemaModelError: built = False
